@@ -46,6 +46,8 @@ type Engine struct {
 	gfields     map[string]*GhostField // pkgPath + " " + name
 	effectAssumptions map[string]bool
 	srcLines    map[string][]string
+	pkgDefaults []pkgDefault
+	defaultCts  map[*ssa.Function]*FuncContract
 	ghostViews  map[string]string
 	presums     map[string]string
 	predDepth   int
@@ -128,6 +130,13 @@ func loadEngine(dir string, patterns []string, assumedDir string) (*Engine, erro
 				ln = strings.TrimSpace(ln)
 				if strings.HasPrefix(ln, "# scope ") {
 					scope = strings.TrimSpace(strings.TrimPrefix(ln, "# scope "))
+				}
+				if strings.HasPrefix(ln, "# default ") {
+					// # default <import path prefix> modifies external
+					fs := strings.Fields(strings.TrimPrefix(ln, "# default "))
+					if len(fs) == 3 && fs[1] == "modifies" && fs[2] == "external" {
+						e.pkgDefaults = append(e.pkgDefaults, pkgDefault{scope: scope, prefix: fs[0], src: filepath.Base(f)})
+					}
 				}
 			}
 			if scope != "" && e.allPkgs[scope] == nil {
@@ -228,7 +237,55 @@ func (e *Engine) isRepoFunc(fn *ssa.Function) bool {
 	return strings.HasPrefix(fnPkgPath(fn), repoModulePrefix)
 }
 
+// pkgDefault: "every function declared under <prefix> that takes no function
+// value modifies dependency memory only" (an assumed contract for a whole
+// dependency, used where no specific contract is given).
+type pkgDefault struct{ scope, prefix, src string }
+
+func (e *Engine) defaultContract(fn *ssa.Function) *FuncContract {
+	if len(e.pkgDefaults) == 0 || fn == nil {
+		return nil
+	}
+	if ct, ok := e.defaultCts[fn]; ok {
+		return ct
+	}
+	if e.defaultCts == nil {
+		e.defaultCts = map[*ssa.Function]*FuncContract{}
+	}
+	var ct *FuncContract
+	pp := fnPkgPath(fn)
+	for _, d := range e.pkgDefaults {
+		if d.scope != "" && e.allPkgs[d.scope] == nil {
+			continue
+		}
+		if !strings.HasPrefix(pp, d.prefix) {
+			continue
+		}
+		takesFunc := false
+		for i := 0; i < fn.Signature.Params().Len(); i++ {
+			if _, ok := fn.Signature.Params().At(i).Type().Underlying().(*types.Signature); ok {
+				takesFunc = true
+			}
+		}
+		if takesFunc {
+			continue
+		}
+		ct = &FuncContract{Key: fn.String(), PkgPath: d.scope, Kind: "func", HasMod: true, Modifies: []string{"external"}, Assumed: true,
+			Loops: map[int]*LoopSpec{}, Src: d.src + ": default for " + d.prefix}
+		break
+	}
+	e.defaultCts[fn] = ct
+	return ct
+}
+
 func (e *Engine) contractFor(fn *ssa.Function) *FuncContract {
+	if ct := e.contractFor0(fn); ct != nil {
+		return ct
+	}
+	return e.defaultContract(fn)
+}
+
+func (e *Engine) contractFor0(fn *ssa.Function) *FuncContract {
 	if ct, ok := e.db.Funcs[e.fullKey(fn)]; ok {
 		return ct
 	}
